@@ -20,7 +20,9 @@ import c01
 from common import pb, u, Time, da, materialise
 
 PID = "C12"
-KINDS = {"f8": np.float64, "f4": np.float32, "c16": np.complex128, "c8": np.complex64}
+KINDS = {"f8": np.float64, "f4": np.float32, "c16": np.complex128, "c8": np.complex64, "i2": np.int16, "i1": np.int8}
+REAL = ("f8", "f4", "i2", "i1")
+INTS = ("i2", "i1")       # plain Signal has no dtype contract; result dtype for integer data is not stated: values are judged
 EPOCHS = [Time("2020-01-01T00:00:00", format="isot", precision=9), Time(58849.123456789, format="mjd"),
           Time("2031-07-14T23:59:59.999999", format="isot", precision=9)]
 DAY52 = Fraction(1, 2 ** 52)
@@ -30,8 +32,8 @@ SSHS = [(), (2,), (1, 2), (3, 2), (2, 3)]
 def variants(case, idx, rnd, n):
     out = []
     for j in range(n):
-        kind = ["c16", "f8", "c8", "f4"][(idx + j) % 4]
-        ssh = SSHS[(idx // 4 + j) % len(SSHS)]
+        kind = ["c16", "f8", "c8", "f4", "i2", "c16", "f8", "i1"][(idx + j) % 8]
+        ssh = SSHS[(idx // 8 + j) % len(SSHS)]
         cls = "BasebandSignal" if kind[0] == "c" and ssh and rnd.random() < 0.4 else "Signal"
         out.append({"kind": kind, "ssh": list(ssh), "cls": cls, "dask": rnd.random() < 0.2,
                     "rate": rnd.randrange(len(sl.RATES)), "epoch": rnd.randrange(len(EPOCHS)),
@@ -64,7 +66,7 @@ def replay_case(tab, case, var):
     info = {"ambiguous": 0, "resolution_limited": 0}
     N, tq, n, form, decl = case["len"], case["tq"], case["n"], case["form"], case["decl"]
     ssh = tuple(var["ssh"])
-    real = var["kind"] in ("f8", "f4")
+    real = var["kind"] in REAL
     data, cols = sl.build_data(tab, N, ssh, real, KINDS[var["kind"]])
     start = EPOCHS[var["epoch"]] if case["hasT"] else None
     z = sl.make_signal(data, var["cls"], sl.RATES[var["rate"]], start, var["dask"])
@@ -95,7 +97,7 @@ def replay_case(tab, case, var):
         out.append(("snippet:raised:" + form, "%s raised %r" % (what, raised)))
         return out, info
     # ---- exactly n samples, metadata otherwise unchanged
-    d = sl.meta_diff(m0, sl.meta_of(y), skip=("start",))
+    d = sl.meta_diff(m0, sl.meta_of(y), skip=("start",) + (("dtype",) if var["kind"] in INTS else ()))
     if d or y.shape[1:] != z.shape[1:]:
         out.append(("snippet:metadata", "%s changed %s" % (what, d)))
     if len(y) != n:
@@ -265,6 +267,141 @@ def forms_compare(ref, y, n, delta, N, x):
     return None
 
 
+# ------------------------------------------------------------------ long signals (code -> Trace_Shift "snip")
+LONG_RATES = [0, 1, 2, 8, 9]         # up to kHz: Time arithmetic resolves << 1e-6 sample
+LONG_EPOCH = Time("2021-03-04T05:06:07", format="isot", precision=9)
+
+
+def long_params(rnd, thorough):
+    """requests far into long signals, every form of t; t + n near len; fractional overshoots"""
+    out = []
+    lens = [(100003, "np"), (1 << 17, "dask"), (1000000, "np"), (10000000, "lazy")]
+    if thorough:
+        lens += [(1 << 20, "dask"), (300007, "np"), (3000000, "lazy")]
+    for N, back in lens:
+        real = rnd.random() < 0.4
+        k = rnd.randint(1, N // 8) * (1 if real else rnd.choice([1, -1]))
+        reqs = []
+        for _ in range(3 if thorough else 2):
+            n = rnd.randint(1, 64)
+            frac = rnd.choice([0.4, 0.25, 0.5, 0.75, 0.123, 0.3, 0.9])
+            reqs.append((float(rnd.randint(N // 2, N - n - 1)) + frac, n))          # far from the start, fractional
+        n = rnd.randint(1, 64)
+        reqs.append((float(N - n) - 0.5, n))                                        # last valid fractional start
+        reqs.append((float(N - n) + rnd.choice([0.3, 0.25, 0.6]), n))              # beyond the end by a fraction
+        reqs.append((float(rnd.randint(N // 2, N - n)), n))                         # whole, far
+        reqs.append((float(N - n), n))                                              # t + n == len
+        reqs.append((-0.3, 1))
+        reqs.append((float(rnd.randint(N // 3, N - 1)) + 0.4, 0))
+        for t, n in reqs:
+            for form in ("count", "duration", "time"):
+                out.append({"N": N, "back": back, "real": real, "k": k, "t": t, "n": n, "form": form,
+                            "rate": rnd.choice(LONG_RATES), "hasT": form == "time" or rnd.random() < 0.8,
+                            "pick": rnd.randrange(1 << 30)})
+    return out
+
+
+_LONG_CACHE = {}
+
+
+def long_signal(p):
+    key = (p["N"], p["back"], p["real"], p["k"])
+    if key not in _LONG_CACHE:
+        _LONG_CACHE.clear()                      # one long array at a time
+        N, k = p["N"], p["k"]
+        if p["back"] == "lazy":                  # never computed: only length / start time / refusals are observed
+            m = da.arange(N, chunks=(N,))
+            th = (2 * np.pi / N) * ((k * m) % N)
+            x = 2.0 + da.cos(th) if p["real"] else da.exp(1j * th)
+        else:
+            m = np.arange(N)
+            th = (2 * np.pi / N) * ((k * m) % N)
+            x = 2.0 + np.cos(th) if p["real"] else np.exp(1j * th)
+            if p["back"] == "dask":
+                x = da.from_array(x, chunks=(N,))
+        _LONG_CACHE[key] = x
+    x = _LONG_CACHE[key]
+    r = sl.RATES[p["rate"]]
+    return pb.Signal(x, sample_rate=r[0] * r[1], start_time=LONG_EPOCH if p["hasT"] else None)
+
+
+def drive_long(p, eid):
+    z = long_signal(p)
+    N, n, form = p["N"], p["n"], p["form"]
+    rate = exact.frac(float(z.sample_rate.to_value(u.Hz)))
+    t0 = exact.time_frac_days(LONG_EPOCH)
+    if form == "count":
+        targ = int(p["t"]) if float(p["t"]).is_integer() and p["pick"] % 2 else p["t"]
+        treq = exact.frac(float(p["t"]))
+    elif form == "duration":
+        targ = (p["t"] / z.sample_rate).to(u.s)
+        treq = exact.frac(float(targ.to_value(u.s))) * rate
+    else:
+        targ = LONG_EPOCH + (p["t"] / z.sample_rate).to(u.s)
+        treq = (exact.time_frac_days(targ) - t0) * 86400 * rate
+    res = 8 * DAY52 * 86400 * rate + abs(treq) * Fraction(1, 2 ** 47) + Fraction(1, 10 ** 12)
+    ev = {"id": eid, "ev": "snip", "N": N, "k": p["k"], "real": p["real"], "n": n, "form": form, "hasT": p["hasT"],
+          "t": exact.rat(treq), "res": exact.rat(res), "refused": False, "len": -1, "off": exact.rat(0), "probes": []}
+    other = None
+    try:
+        y = pb.snippet(z, targ, n)
+    except ValueError:
+        ev["refused"] = True
+        return ev, other
+    except Exception as e:  # noqa
+        ev["refused"] = True
+        return ev, "raised %r" % (e,)
+    ev["len"] = len(y)
+    if p["hasT"]:
+        if y.start_time is None:
+            other = "start time lost"
+        else:
+            ev["off"] = exact.rat((exact.time_frac_days(y.start_time) - t0) * 86400 * rate)
+    elif y.start_time is not None:
+        other = "start time from nowhere"
+    if p["back"] != "lazy" and len(y) > 0:
+        a = materialise(y)
+        rr = random.Random(p["pick"])
+        for j in sorted({0, len(y) - 1, rr.randrange(len(y)), rr.randrange(len(y))}):
+            ev["probes"].append({"j": j, "y": exact.cfix(complex(a[j]))})
+    return ev, other
+
+
+def long_signals(rnd, thorough):
+    """-> (violations [(key, desc, case)], tlc runs, n validated, notes, sample); applied to chk by the caller
+    (this part runs side by side with the other TLC jobs)"""
+    params = long_params(rnd, thorough)
+    events, viol = [], []
+    for i, p in enumerate(params):
+        if p["form"] == "time" and not p["hasT"]:
+            continue
+        ev, other = drive_long(p, i)
+        if other:
+            viol.append(("snippet:long:" + other.split(" ")[0], "snippet on a %d-sample signal, %r: %s" % (p["N"], p, other),
+                         {"kind": "long", "p": p}))
+        events.append(ev)
+    _LONG_CACHE.clear()
+
+    class Runs:                       # collects the TLC results like a Check would
+        def __init__(self):
+            self.runs = []
+
+        def add_tlc(self, name, r, exhaustive=False):
+            self.runs.append((name, r))
+    runs = Runs()
+    rejected, n = sl.validate("Trace_Shift", events, chk=runs, name="snip", batch=max(20, len(events) // 3 + 1), par=3)
+    for ev, failed in rejected:
+        p = params[ev["id"]]
+        viol.append(("snippet:long:%s:%s" % ("+".join(sorted(failed)), p["form"]),
+                     "snippet(len=%d, t=%r samples as %s, n=%d) on a tone: TLC rejects %s (refused=%s, len=%s, start offset %s samples)"
+                     % (p["N"], p["t"], p["form"], p["n"], sorted(failed), ev["refused"], ev["len"],
+                        float(exact.unrat(ev["off"]))), {"kind": "long", "p": p}))
+    notes = {"long_signal_requests": n, "long_signal_lengths": sorted({p["N"] for p in params})}
+    e = events[0]
+    sample = {"long": params[e["id"]], "observed": {"refused": e["refused"], "len": e["len"], "off": float(exact.unrat(e["off"]))}}
+    return viol, runs.runs, n, notes, sample
+
+
 def run(chk):
     thorough = chk.tier == "thorough"
     rnd = random.Random(chk.seed)
@@ -273,11 +410,12 @@ def run(chk):
         # replay of generated pipelines (shared replayer); the model checking of Pipeline.tla is done on the
         # C12 instance below (snippet with the other time-axis operations), not on C01's all-operations instance
         "pipeline": lambda: c01.run_pipeline(chk, want=("C12",), mc=None),
-        "mcpipe": lambda: tlc.run("MC_PipelineSnip", "MC_PipelineSnip_%s.cfg" % t, workers=6, timeout=3000),
-        "mc": lambda: tlc.run("MC_Snippet", "MC_Snippet_%s.cfg" % t, workers=2, timeout=3000),
-        "neg": lambda: tlc.run("MC_Snippet", "Neg_Snippet_round.cfg", workers=1, timeout=900),
+        "mcpipe": lambda: tlc.run("MC_PipelineSnip", "MC_PipelineSnip_%s.cfg" % t, workers=6, timeout=3000, heap="3g"),
+        "mc": lambda: tlc.run("MC_Snippet", "MC_Snippet_%s.cfg" % t, workers=2, timeout=3000, heap="3g"),
+        "neg": lambda: tlc.run("MC_Snippet", "Neg_Snippet_round.cfg", workers=1, timeout=900, heap="1g"),
         "cases": lambda: sl.gen("Gen_Snippet", "Gen_Snippet_%s.cfg" % t, workers=2),
         "table": lambda: sl.gen("Gen_Delay", "Gen_Delay_snip_%s.cfg" % t, workers=4, timeout=3000),
+        "long": lambda: long_signals(random.Random(chk.seed + 7919), thorough),
     })
     chk.mc_must_hold("MC_PipelineSnip_" + t, res["mcpipe"])
     chk.mc_must_hold("MC_Snippet_" + t, res["mc"])
@@ -293,9 +431,19 @@ def run(chk):
     tab = sl.Table(res["table"][1])
     run_replay(chk, tab, res["cases"][1], rnd, 30000 if thorough else 3000, 2 if thorough else 1)
     forms_at_length(chk, rnd, thorough)
+    viol, runs, nl, notes, sample = res["long"]
+    for name, r in runs:
+        chk.add_tlc(name, r)
+    for key, desc, case in viol:
+        chk.violation(key, desc, case)
+    chk.validated += nl
+    chk.notes.update(notes)
+    chk.sample(sample)
     chk.assumptions += [
         "TLC explores Snippet / Pipeline exhaustively only within the constants of the MC configurations",
         "fractional t: TLC's DFT-interpolated samples (N <= 8) at 1e-5*max|x|; whole t as a sample count: bitwise z[t:t+n]",
+        "long signals (1e5..1e7 samples, NumPy / Dask / never-computed Dask): tone probes, every form of t far from the start and "
+        "around t + n = len; refusal, length, exact start offset and sampled output values decided by TLC (Trace_Shift 'snip')",
         "duration / Time forms: judged up to the time resolution of the float sample count the code derives "
         "(requests whose bounds check flips under that rounding are counted `ambiguous`, data not compared when the "
         "resolution exceeds 1e-7 sample)",
@@ -307,7 +455,11 @@ def replay(doc):
     if c["kind"] == "pipeline":
         return c01.replay(doc)
     bad = []
-    if c["kind"] == "gen":
+    if c["kind"] == "long":
+        ev, other = drive_long(c["p"], 0)
+        rejected, _ = sl.validate("Trace_Shift", [ev], batch=10, par=1)
+        bad = [("snippet:long", "TLC rejects %s" % f) for _, f in rejected] + ([("snippet:long", other)] if other else [])
+    elif c["kind"] == "gen":
         tab = __import__("c03").JsonTable(c["case"]["len"], c["table"])
         bad, _ = replay_case(tab, c["case"], c["var"])
     else:
